@@ -5,7 +5,10 @@
   Helper lemmas: C01/FwLemmas.lean, C01/FwLemmas2.lean.
 -/
 import NdnVerif.C09.Model
+import NdnVerif.C02.Props
 import NdnVerif.C01.FwLemmas
+import NdnVerif.C01.FwLemmas2
+import NdnVerif.C01.FwLemmas3
 namespace Ndn.Fw.C09
 open Ndn Ndn.Fw Ndn.Fw.Spec
 
@@ -76,5 +79,64 @@ theorem localhost_rejected_inbound_no_change (s : St) (f : FaceId) (fc : Face)
 example :
     let s : St := { faces := [⟨2, false, .p2p⟩, ⟨1, true, .p2p⟩], fib := [([localhostComp], [(1, 1)])] }
     step s (.interest 2 { name := [localhostComp, ⟨8, [97]⟩], nonce := some 5 } [] 0) = (s, []) := by decide
+
+/-- Local faces are unaffected — /localhost exchanges between local applications and the forwarder work:
+    in a reachable state (`WF`), a first /localhost Interest (any name, in fact) from local face `f`
+    whose longest-prefix FIB entry has a next hop the outgoing pipeline accepts, not answered by the
+    cache, IS forwarded; every copy goes to a local face; and the Data that comes back on any local
+    face echoing the attached PIT token is delivered to `f` with the PIT token `f` supplied. -/
+theorem localhost_local_works (s : St) (hwf : WF s) (f : FaceId) (ff : Face) (i : Interest) (tie : List FaceId) (pick : Nat)
+    (hop : Option Nat) (nonce : Nat) (g : FaceId) (c : Nat)
+    (hf : faceOf s.faces f = some ff) (hfl : ff.isLocal = true) (hlh : specLocalhost i.name = true)
+    (hhop : hopStep i.hop = some hop) (hn : i.nonce = some nonce) (hdead : dnlHas s.dnl i.name nonce = false)
+    (hfirst : preEntry s i = none) (hcs : s.csServe = false ∨ csFind s.now s.cs i pick = none) (hnh : i.nextHop = none)
+    (hg : (g, c) ∈ lpmNextHops s.fib (lookupName s.regions i)) (hu : usableOut s.faces f i.name hop g = true) :
+    let r := step s (.interest f i tie pick)
+    r.2 ≠ [] ∧
+    (∀ snd ∈ r.2, (∃ g', snd = .interest g' i.name hop (.mine s.nextTok)) ∧ nonLocal s.faces snd.face = false) ∧
+    (∀ (from_ : FaceId) (fc : Face) (content : Nat), faceOf s.faces from_ = some fc → fc.isLocal = true →
+      Send.data f i.name content i.tok ∈
+        (step r.1 (.data from_ { name := i.name, content := content, tok := .six s.nextTok })).2) := by
+  intro r
+  have hsc : (!ff.isLocal && isLocalhost i.name) = false := by simp [hfl]
+  obtain ⟨hne, hall⟩ := C02.first_interest_forwarded_hop_minus_one s hwf f i tie pick ff hop nonce g c hf hsc hhop hn hdead
+    hfirst hcs hnh hg hu
+  refine ⟨hne, ?_, ?_⟩
+  · intro snd hsnd
+    refine ⟨hall snd hsnd, ?_⟩
+    have := localhost_never_sent_nonlocal s (.interest f i tie pick) snd hsnd
+    obtain ⟨g', rfl⟩ := hall snd hsnd
+    cases hnl : nonLocal s.faces (Send.interest g' i.name hop (.mine s.nextTok)).face with
+    | false => rfl
+    | true => exact absurd ⟨hnl, hlh⟩ this
+  · intro from_ fc content hfc hfcl
+    have hdup : ∀ e, preEntry s i = some e → (e.inRecs.any fun r => r.face != f && r.nonce == nonce) = false := by
+      intro e he; rw [hfirst] at he; cases he
+    rcases onInterest_stage s hwf f i tie pick ff hop nonce hf hhop hsc hn hdead hdup with
+      ⟨ce, cs', hsv, hfind, _⟩ | ⟨s', tok, e', hst, heq⟩
+    · rcases hcs with h | h
+      · rw [h] at hsv; cases hsv
+      · rw [h] at hfind; cases hfind
+    · obtain ⟨htok, hin⟩ := hst.fresh hfirst
+      subst htok
+      obtain ⟨⟨e2, he2, hi2⟩, hfaces⟩ := forwardInterest_entry (s := s') i nonce hop f tie hst.entry
+      have hr1 : r.1 = (forwardInterest s' s.nextTok i nonce hop f tie).1 := by
+        show (step s (.interest f i tie pick)).1 = _
+        simp only [step]; rw [heq]
+      simp only [step]
+      rw [hr1]
+      have hfc' : faceOf (forwardInterest s' s.nextTok i nonce hop f tie).1.faces from_ = some fc := by
+        rw [hfaces, hst.faces]; exact hfc
+      rw [onData_token_delivers _ from_ fc i.name content s.nextTok e2 hfc' hfcl he2, hi2, hin, hfaces, hst.faces]
+      apply dataSends_of_deliverable (t := (f, i.tok)) (by simp) hf
+      simp [hfl]
+
+example :
+    let s : St := { faces := [⟨1, true, .p2p⟩, ⟨2, true, .p2p⟩, ⟨3, false, .p2p⟩],
+                    fib := [([localhostComp], [(3, 0), (2, 5)])] }
+    let i : Interest := { name := [localhostComp, ⟨8, [97]⟩], nonce := some 5, tok := [7] }
+    (step s (.interest 1 i [] 0)).2 = [.interest 2 i.name none (.mine 0)] ∧
+    (step (step s (.interest 1 i [] 0)).1 (.data 2 { name := i.name, content := 9, tok := .six 0 })).2 = [.data 1 i.name 9 [7]] := by
+  decide
 
 end Ndn.Fw.C09
